@@ -1176,8 +1176,16 @@ is_job_invalid(IMB_MGR *state, const IMB_JOB *job, const IMB_CIPHER_MODE cipher_
                         imb_set_errno(state, IMB_ERR_JOB_IV_LEN);
                         return 1;
                 }
+                if (hash_alg != IMB_AUTH_CHACHA20_POLY1305) {
+                        imb_set_errno(state, IMB_ERR_HASH_ALGO);
+                        return 1;
+                }
                 break;
         case IMB_CIPHER_CHACHA20_POLY1305_SGL:
+                if (hash_alg != IMB_AUTH_CHACHA20_POLY1305_SGL) {
+                        imb_set_errno(state, IMB_ERR_HASH_ALGO);
+                        return 1;
+                }
                 if (job->iv == NULL) {
                         imb_set_errno(state, IMB_ERR_JOB_NULL_IV);
                         return 1;
